@@ -1,0 +1,6 @@
+//go:build !verif
+
+package jrpc2
+
+// verifOrderKeys is a no-op outside the simulation build.
+func verifOrderKeys(keys []key) {}
